@@ -1,6 +1,21 @@
 (* pinned translation of the pinned revision of /repo (tools/rustfun.py --pin); fragments per function,
    used as fallback text when a function cannot be located or translated *)
 
+Inductive src_Bound : Type :=
+  | src_Bound_Included (x0 : list N)
+  | src_Bound_Excluded (x0 : list N)
+  | src_Bound_Unbounded.
+
+Inductive src_StartsWithStateKind (A : src_aut) : Type :=
+  | src_StartsWithStateKind_Done
+  | src_StartsWithStateKind_Running (x0 : src_St A).
+
+Inductive src_State : Type :=
+  | src_State_OneTransNext (x0 : N)
+  | src_State_OneTrans (x0 : N)
+  | src_State_AnyTrans (x0 : N)
+  | src_State_EmptyFinal.
+
 Definition src_fn_pack_size (n : N) : N :=
   if (n <? 256)
   then 1
